@@ -32,6 +32,10 @@ mod stats;
 mod time;
 mod tree_painter;
 
+#[cfg(feature = "verif_hooks")]
+#[doc(hidden)]
+pub mod verif;
+
 pub mod counter;
 
 /// `use divan::prelude::*;` to import common items.
